@@ -480,10 +480,14 @@ func checkC10(c *Check) {
 		if ok {
 			// (1) an equal earlier sibling never leads to a true verdict
 			for e := range shadow {
-				succ := e.B.Succs[e.S]
-				if in, _ := (Query{Fn: fn}).Reach(succ, 0, mayTrue); in != nil {
-					ok, why = false, "an earlier sibling with the same literal does not force the verdict false"
-				}
+				// every path from the equal-literal edge ends in a false verdict (flags resolved along the path)
+				eachPathToReturn(fn, e, func(path []*ssa.BasicBlock, r *ssa.Return) bool {
+					if val, known := boolOnPath(path, r.Results[0]); !known || val {
+						ok, why = false, "an earlier sibling with the same literal does not force the verdict false"
+						return false
+					}
+					return true
+				})
 			}
 		}
 		if ok {
